@@ -246,9 +246,18 @@ def net_parts():
     return _NET["parts"]
 
 
-def net_run(part, case):
+def net_run(part, case, keep=None):
+    """digest of the part's observation of the case; with `keep` (a file name) the observation's JSON text is also written there
+    (nothing is retained in memory: the reruns are about what survives in this interpreter, so the check itself keeps no garbage)"""
     try:
-        return digest(net_parts()[part].run_impl(case))
+        text = json.dumps(net_parts()[part].run_impl(case), sort_keys=True, default=str)
+        if keep:
+            try:
+                with open(keep, "w") as fh:
+                    fh.write(text)
+            except OSError:
+                pass
+        return hashlib.sha1(text.encode()).hexdigest()
     except BaseException as e:
         return "error:" + type(e).__name__ + ":" + str(e)[:200]
 
@@ -301,13 +310,15 @@ def net_rounds(part, case, polluters, ks):
     """for every (polluter, k): an execution of the polluter stopped after k steps (result thrown away), then a complete
     execution of `case`; returns the digests of the complete executions"""
     out = []
-    for c, k in zip(polluters, ks):
+    rdir = os.path.join(VERIF, ".work", "c03_rounds")
+    os.makedirs(rdir, exist_ok=True)
+    for j, (c, k) in enumerate(zip(polluters, ks)):
         with truncated(k):
             try:
                 net_parts()[part].run_impl(c)
             except BaseException:
                 pass
-        out.append(net_run(part, case))
+        out.append(net_run(part, case, keep=os.path.join(rdir, "%d.json" % j)))
     return out
 
 
@@ -317,6 +328,45 @@ from props import c03
 items = json.load(sys.stdin)
 print(json.dumps({"digests": [c03.net_run(p, c) for p, c in items]}))
 """
+
+
+_NET_SUB_OBS = r"""
+import sys, json
+from props import c03
+items = json.load(sys.stdin)
+print(json.dumps({"obs": [json.loads(json.dumps(c03.net_parts()[p].run_impl(c), sort_keys=True, default=str)) for p, c in items]}))
+"""
+
+
+def net_reference_obs(items, seed):
+    """the full observations (not only digests) of (part, case) items computed in one fresh interpreter"""
+    env = dict(os.environ)
+    env["PYTHONHASHSEED"] = str(seed)
+    env["PYTHONPATH"] = REPO + os.pathsep + VERIF
+    p = subprocess.run([PY, "-c", _NET_SUB_OBS], input=json.dumps(items), capture_output=True, text=True, env=env, timeout=900, cwd=VERIF)
+    return json.loads(p.stdout.strip().splitlines()[-1])["obs"]
+
+
+def _first_diffs(a, b, path=""):
+    out = []
+    if type(a) != type(b):
+        return [[path, str(a)[:120], str(b)[:120]]]
+    if isinstance(a, dict):
+        for k in sorted(set(a) | set(b)):
+            if k not in a or k not in b:
+                out.append([path + "/" + str(k), "present" if k in a else "absent", "present" if k in b else "absent"])
+            else:
+                out += _first_diffs(a[k], b[k], path + "/" + str(k))
+    elif isinstance(a, list):
+        if len(a) != len(b):
+            out.append([path, "len %d" % len(a), "len %d" % len(b)])
+        for i, (x, y) in enumerate(zip(a, b)):
+            out += _first_diffs(x, y, path + "/%d" % i)
+            if len(out) > 8:
+                break
+    elif a != b:
+        out.append([path, str(a)[:120], str(b)[:120]])
+    return out
 
 
 def net_reference(items, seed):
@@ -1117,6 +1167,19 @@ class C03(Prop):
                 bad += 1
                 case = {"kind": "netrepro", "part": name, "case": c, "polluters": pol, "ks": ks, "seed": diff[0]}
                 obs = {"runs": [], "ref": refs[diff[0]][i], "digests": ds}
+                try:                                          # for the reader: where the observations differ (also written to .work)
+                    j = [k for k, d in enumerate(ds) if d != refs[diff[0]][i]][0]
+                    with open(os.path.join(VERIF, ".work", "c03_rounds", "%d.json" % j)) as fh:
+                        here = json.load(fh)
+                    there = net_reference_obs([[name, c]], diff[0])[0]
+                    obs["diagnosis"] = {"round": j, "first_differences": _first_diffs(here, there)[:8]}
+                except BaseException as e:
+                    obs["diagnosis"] = {"error": type(e).__name__ + ":" + str(e)[:200]}
+                try:
+                    with open(os.path.join(VERIF, ".work", "c03_network_difference.json"), "w") as fh:
+                        json.dump({"case": case, "obs": obs}, fh, indent=1, default=str)
+                except BaseException:
+                    pass
                 violations.append((case, obs, (self.monitor(case, obs) or ["network-not-reproducible: fresh interpreters disagree"])[0]))
         stats = {"network_rerun_parts": sorted(parts), "network_rerun_parts_skipped": list(_NET.get("skipped", [])),
                  "network_rerun_cases": len(items), "network_rerun_truncated_runs": sum(len(x[2]) for x in items),
